@@ -8,10 +8,12 @@ import Std.Tactic.BVDecide
 of `rf_pack_t` are 64-bit values, the buffer is a byte memory, `memcpy`/`memset` are `Mem.copy`/`Mem.fill`.
 
 * layer 1 (`*_generated`, every input, `bv_decide`): the cursor always advances by the item size; bytes are transferred iff
-  the advanced cursor is `<= endp` (`fitsBV`); which bytes go where (byte order, shifts, promotions), address by address;
-  what an unpacker returns (0 when the item does not fit);
+  the advanced cursor is `<= endp` (`fitsBV`); which bytes go where — the references use the hand model's own encoders
+  (`encU32le`, …) and decoders (`dec16`, `dec32`), so byte order, shifts and integer promotions of the C are compared with
+  the model's on all 2^16 / 2^32 values; what an unpacker returns (0 when the item does not fit);
 * layer 2 (`*_tie`): under the representation `basep = base`, `endp = base + size`, `p = base + cur` (no address wraps
-  round 2^64), the references are the hand model `Librfn.Model.Pack` that the C12 / C13 / C14 theorems are about.
+  round 2^64), the calls do to the memory and the cursor what `Librfn.Model.Pack` (the model of the C12 / C13 / C14
+  theorems) does.
 -/
 namespace Librfn.C12.Tie
 open Librfn.Gen Librfn.Gen.PackSeq
@@ -19,6 +21,9 @@ open Librfn.Model.Pack hiding Mem
 
 /-- `pack->p += n; if (pack->p <= pack->endp)` evaluated on the cursor before the advance -/
 def fitsBV (p e n : BitVec 64) : Bool := (p + n).ule e
+
+/-- byte `k` of a model encoding -/
+def byteAt (bs : List UInt8) (k : Nat) : BitVec 8 := (bs.getD k 0).toBitVec
 
 /-! ### layer 1 -/
 
@@ -29,9 +34,9 @@ theorem pack_s16le_generated (b e p : BitVec 64) (v : BitVec 16) (mem : Gen.Mem)
   bv_decide (config := { timeout := 300 })
 
 theorem pack_s16le_generated_mem (b e p : BitVec 64) (v : BitVec 16) (mem : Gen.Mem) (a : BitVec 64) :
-    (rf_pack_s16le b e p v mem).mem a = (if fitsBV p e 2#64 then (if a = p + 1#64 then ((v.signExtend 32).sshiftRight 8).setWidth 8 else if a = p then (v.signExtend 32).setWidth 8 else mem a) else mem a) := by
+    (rf_pack_s16le b e p v mem).mem a = (if fitsBV p e 2#64 then (if a = p + 1#64 then byteAt (encS16le v) 1 else if a = p then byteAt (encS16le v) 0 else mem a) else mem a) := by
   unfold rf_pack_s16le fitsBV
-  simp only [Mem.ite_app, Mem.store_app]
+  simp only [Mem.ite_app, Mem.store_app, byteAt, encS16le, b8, List.getD_cons_zero, List.getD_cons_succ, UInt8.toBitVec_ofBitVec]
   bv_decide (config := { timeout := 300 })
 
 theorem pack_u16be_generated (b e p : BitVec 64) (v : BitVec 16) (mem : Gen.Mem) :
@@ -41,9 +46,9 @@ theorem pack_u16be_generated (b e p : BitVec 64) (v : BitVec 16) (mem : Gen.Mem)
   bv_decide (config := { timeout := 300 })
 
 theorem pack_u16be_generated_mem (b e p : BitVec 64) (v : BitVec 16) (mem : Gen.Mem) (a : BitVec 64) :
-    (rf_pack_u16be b e p v mem).mem a = (if fitsBV p e 2#64 then (if a = p + 1#64 then v.setWidth 8 else if a = p then (v >>> 8).setWidth 8 else mem a) else mem a) := by
+    (rf_pack_u16be b e p v mem).mem a = (if fitsBV p e 2#64 then (if a = p + 1#64 then byteAt (encU16be v) 1 else if a = p then byteAt (encU16be v) 0 else mem a) else mem a) := by
   unfold rf_pack_u16be fitsBV
-  simp only [Mem.ite_app, Mem.store_app]
+  simp only [Mem.ite_app, Mem.store_app, byteAt, encU16be, b8, List.getD_cons_zero, List.getD_cons_succ, UInt8.toBitVec_ofBitVec]
   bv_decide (config := { timeout := 300 })
 
 theorem pack_u16le_generated (b e p : BitVec 64) (v : BitVec 16) (mem : Gen.Mem) :
@@ -53,9 +58,9 @@ theorem pack_u16le_generated (b e p : BitVec 64) (v : BitVec 16) (mem : Gen.Mem)
   bv_decide (config := { timeout := 300 })
 
 theorem pack_u16le_generated_mem (b e p : BitVec 64) (v : BitVec 16) (mem : Gen.Mem) (a : BitVec 64) :
-    (rf_pack_u16le b e p v mem).mem a = (if fitsBV p e 2#64 then (if a = p + 1#64 then (v >>> 8).setWidth 8 else if a = p then v.setWidth 8 else mem a) else mem a) := by
+    (rf_pack_u16le b e p v mem).mem a = (if fitsBV p e 2#64 then (if a = p + 1#64 then byteAt (encU16le v) 1 else if a = p then byteAt (encU16le v) 0 else mem a) else mem a) := by
   unfold rf_pack_u16le fitsBV
-  simp only [Mem.ite_app, Mem.store_app]
+  simp only [Mem.ite_app, Mem.store_app, byteAt, encU16le, b8, List.getD_cons_zero, List.getD_cons_succ, UInt8.toBitVec_ofBitVec]
   bv_decide (config := { timeout := 300 })
 
 theorem pack_s32le_generated (b e p : BitVec 64) (v : BitVec 32) (mem : Gen.Mem) :
@@ -65,9 +70,9 @@ theorem pack_s32le_generated (b e p : BitVec 64) (v : BitVec 32) (mem : Gen.Mem)
   bv_decide (config := { timeout := 300 })
 
 theorem pack_s32le_generated_mem (b e p : BitVec 64) (v : BitVec 32) (mem : Gen.Mem) (a : BitVec 64) :
-    (rf_pack_s32le b e p v mem).mem a = (if fitsBV p e 4#64 then (if a = p + 3#64 then (v >>> 24).setWidth 8 else if a = p + 2#64 then (v >>> 16).setWidth 8 else if a = p + 1#64 then (v >>> 8).setWidth 8 else if a = p then v.setWidth 8 else mem a) else mem a) := by
+    (rf_pack_s32le b e p v mem).mem a = (if fitsBV p e 4#64 then (if a = p + 3#64 then byteAt (encS32le v) 3 else if a = p + 2#64 then byteAt (encS32le v) 2 else if a = p + 1#64 then byteAt (encS32le v) 1 else if a = p then byteAt (encS32le v) 0 else mem a) else mem a) := by
   unfold rf_pack_s32le fitsBV
-  simp only [Mem.ite_app, Mem.store_app]
+  simp only [Mem.ite_app, Mem.store_app, byteAt, encS32le, b8, List.getD_cons_zero, List.getD_cons_succ, UInt8.toBitVec_ofBitVec]
   bv_decide (config := { timeout := 300 })
 
 theorem pack_u32le_generated (b e p : BitVec 64) (v : BitVec 32) (mem : Gen.Mem) :
@@ -77,15 +82,16 @@ theorem pack_u32le_generated (b e p : BitVec 64) (v : BitVec 32) (mem : Gen.Mem)
   bv_decide (config := { timeout := 300 })
 
 theorem pack_u32le_generated_mem (b e p : BitVec 64) (v : BitVec 32) (mem : Gen.Mem) (a : BitVec 64) :
-    (rf_pack_u32le b e p v mem).mem a = (if fitsBV p e 4#64 then (if a = p + 3#64 then (v >>> 24).setWidth 8 else if a = p + 2#64 then (v >>> 16).setWidth 8 else if a = p + 1#64 then (v >>> 8).setWidth 8 else if a = p then v.setWidth 8 else mem a) else mem a) := by
+    (rf_pack_u32le b e p v mem).mem a = (if fitsBV p e 4#64 then (if a = p + 3#64 then byteAt (encU32le v) 3 else if a = p + 2#64 then byteAt (encU32le v) 2 else if a = p + 1#64 then byteAt (encU32le v) 1 else if a = p then byteAt (encU32le v) 0 else mem a) else mem a) := by
   unfold rf_pack_u32le fitsBV
-  simp only [Mem.ite_app, Mem.store_app]
+  simp only [Mem.ite_app, Mem.store_app, byteAt, encU32le, b8, List.getD_cons_zero, List.getD_cons_succ, UInt8.toBitVec_ofBitVec]
   bv_decide (config := { timeout := 300 })
 
 theorem unpack_char_generated (b e p : BitVec 64) (mem : Gen.Mem) :
     (rf_unpack_char b e p mem).ub = false ∧ (rf_unpack_char b e p mem).exh = false ∧ (rf_unpack_char b e p mem).pack_basep = b ∧ (rf_unpack_char b e p mem).pack_endp = e ∧
     (rf_unpack_char b e p mem).pack_p = p + 1#64 ∧ (rf_unpack_char b e p mem).ret = (if fitsBV p e 1#64 then mem p else 0#8) := by
   unfold rf_unpack_char fitsBV
+  simp only [dec16, dec32, UInt8.toBitVec_ofBitVec]
   bv_decide (config := { timeout := 300 })
 
 theorem unpack_char_generated_mem (b e p : BitVec 64) (mem : Gen.Mem) : (rf_unpack_char b e p mem).mem = mem := by
@@ -96,6 +102,7 @@ theorem unpack_s8_generated (b e p : BitVec 64) (mem : Gen.Mem) :
     (rf_unpack_s8 b e p mem).ub = false ∧ (rf_unpack_s8 b e p mem).exh = false ∧ (rf_unpack_s8 b e p mem).pack_basep = b ∧ (rf_unpack_s8 b e p mem).pack_endp = e ∧
     (rf_unpack_s8 b e p mem).pack_p = p + 1#64 ∧ (rf_unpack_s8 b e p mem).ret = (if fitsBV p e 1#64 then mem p else 0#8) := by
   unfold rf_unpack_s8 fitsBV
+  simp only [dec16, dec32, UInt8.toBitVec_ofBitVec]
   bv_decide (config := { timeout := 300 })
 
 theorem unpack_s8_generated_mem (b e p : BitVec 64) (mem : Gen.Mem) : (rf_unpack_s8 b e p mem).mem = mem := by
@@ -106,6 +113,7 @@ theorem unpack_u8_generated (b e p : BitVec 64) (mem : Gen.Mem) :
     (rf_unpack_u8 b e p mem).ub = false ∧ (rf_unpack_u8 b e p mem).exh = false ∧ (rf_unpack_u8 b e p mem).pack_basep = b ∧ (rf_unpack_u8 b e p mem).pack_endp = e ∧
     (rf_unpack_u8 b e p mem).pack_p = p + 1#64 ∧ (rf_unpack_u8 b e p mem).ret = (if fitsBV p e 1#64 then mem p else 0#8) := by
   unfold rf_unpack_u8 fitsBV
+  simp only [dec16, dec32, UInt8.toBitVec_ofBitVec]
   bv_decide (config := { timeout := 300 })
 
 theorem unpack_u8_generated_mem (b e p : BitVec 64) (mem : Gen.Mem) : (rf_unpack_u8 b e p mem).mem = mem := by
@@ -114,8 +122,9 @@ theorem unpack_u8_generated_mem (b e p : BitVec 64) (mem : Gen.Mem) : (rf_unpack
 
 theorem unpack_u16le_generated (b e p : BitVec 64) (mem : Gen.Mem) :
     (rf_unpack_u16le b e p mem).ub = false ∧ (rf_unpack_u16le b e p mem).exh = false ∧ (rf_unpack_u16le b e p mem).pack_basep = b ∧ (rf_unpack_u16le b e p mem).pack_endp = e ∧
-    (rf_unpack_u16le b e p mem).pack_p = p + 2#64 ∧ (rf_unpack_u16le b e p mem).ret = (if fitsBV p e 2#64 then (mem (p + 1#64)) ++ (mem p) else 0#16) := by
+    (rf_unpack_u16le b e p mem).pack_p = p + 2#64 ∧ (rf_unpack_u16le b e p mem).ret = (if fitsBV p e 2#64 then dec16 (UInt8.ofBitVec (mem p)) (UInt8.ofBitVec (mem (p + 1#64))) else 0#16) := by
   unfold rf_unpack_u16le fitsBV
+  simp only [dec16, dec32, UInt8.toBitVec_ofBitVec]
   bv_decide (config := { timeout := 300 })
 
 theorem unpack_u16le_generated_mem (b e p : BitVec 64) (mem : Gen.Mem) : (rf_unpack_u16le b e p mem).mem = mem := by
@@ -124,8 +133,9 @@ theorem unpack_u16le_generated_mem (b e p : BitVec 64) (mem : Gen.Mem) : (rf_unp
 
 theorem unpack_u32le_generated (b e p : BitVec 64) (mem : Gen.Mem) :
     (rf_unpack_u32le b e p mem).ub = false ∧ (rf_unpack_u32le b e p mem).exh = false ∧ (rf_unpack_u32le b e p mem).pack_basep = b ∧ (rf_unpack_u32le b e p mem).pack_endp = e ∧
-    (rf_unpack_u32le b e p mem).pack_p = p + 4#64 ∧ (rf_unpack_u32le b e p mem).ret = (if fitsBV p e 4#64 then (mem (p + 3#64)) ++ (mem (p + 2#64)) ++ (mem (p + 1#64)) ++ (mem p) else 0#32) := by
+    (rf_unpack_u32le b e p mem).pack_p = p + 4#64 ∧ (rf_unpack_u32le b e p mem).ret = (if fitsBV p e 4#64 then dec32 (UInt8.ofBitVec (mem p)) (UInt8.ofBitVec (mem (p + 1#64))) (UInt8.ofBitVec (mem (p + 2#64))) (UInt8.ofBitVec (mem (p + 3#64))) else 0#32) := by
   unfold rf_unpack_u32le fitsBV
+  simp only [dec16, dec32, UInt8.toBitVec_ofBitVec]
   bv_decide (config := { timeout := 300 })
 
 theorem unpack_u32le_generated_mem (b e p : BitVec 64) (mem : Gen.Mem) : (rf_unpack_u32le b e p mem).mem = mem := by
@@ -180,5 +190,291 @@ theorem unpack_bytes_generated_mem (b e p dst : BitVec 64) (sz : BitVec 32) (mem
   have h : sz.toNat % 18446744073709551616 = sz.toNat := Nat.mod_eq_of_lt (by have := sz.isLt; omega)
   unfold rf_unpack_bytes fitsBV
   by_cases hd : dst = 0#64 <;> by_cases hf : (p + BitVec.setWidth 64 sz).ule e = true <;> simp [h, hd, hf]
+
+/-! ### layer 2 -/
+
+/-- the byte memory represents the model's memory -/
+def AbsM (mem : Gen.Mem) (m : Librfn.Model.Pack.Mem) : Prop :=
+  ∀ i, i < 2 ^ 64 → m i = UInt8.ofBitVec (mem (BitVec.ofNat 64 i))
+
+theorem ofNat64_inj (a b : Nat) (ha : a < 2 ^ 64) (hb : b < 2 ^ 64) : BitVec.ofNat 64 a = BitVec.ofNat 64 b ↔ a = b := by
+  constructor
+  · intro h
+    have := congrArg BitVec.toNat h
+    simp only [BitVec.toNat_ofNat] at this
+    omega
+  · intro h; rw [h]
+
+theorem ofNat64_add (a k : Nat) : BitVec.ofNat 64 a + BitVec.ofNat 64 k = BitVec.ofNat 64 (a + k) := by
+  apply BitVec.eq_of_toNat_eq
+  simp only [BitVec.toNat_add, BitVec.toNat_ofNat]
+  omega
+
+theorem fits_iff (pk : Pk) (n : Nat) (h1 : pk.base + pk.size < 2 ^ 64) (h2 : pk.base + pk.cur + n < 2 ^ 64) :
+    fitsBV (BitVec.ofNat 64 (pk.base + pk.cur)) (BitVec.ofNat 64 (pk.base + pk.size)) (BitVec.ofNat 64 n) = fits pk n := by
+  unfold fitsBV fits
+  rw [ofNat64_add]
+  simp only [BitVec.ule, BitVec.toNat_ofNat]
+  rw [Nat.mod_eq_of_lt h1, Nat.mod_eq_of_lt (show pk.base + pk.cur + n < 2 ^ 64 from h2)]
+  by_cases h : pk.cur + n ≤ pk.size
+  · simp only [h, decide_true]; apply decide_eq_true; omega
+  · simp only [h, decide_false]; apply decide_eq_false; omega
+
+theorem writeBytes_apply (m : Librfn.Model.Pack.Mem) (a : Nat) (bs : List UInt8) (i : Nat) :
+    writeBytes m a bs i = if a ≤ i ∧ i < a + bs.length then bs.getD (i - a) 0 else m i := by
+  induction bs generalizing m a with
+  | nil => simp only [writeBytes, List.length_nil, Nat.add_zero]; rw [if_neg (by omega)]
+  | cons b bs ih =>
+    simp only [writeBytes, List.length_cons]
+    rw [ih]
+    by_cases h1 : a + 1 ≤ i ∧ i < a + 1 + bs.length
+    · have e : i - a = (i - (a + 1)) + 1 := by omega
+      have h2 : a ≤ i ∧ i < a + (bs.length + 1) := by omega
+      rw [if_pos h1, if_pos h2, e, List.getD_cons_succ]
+    · rw [if_neg h1]
+      by_cases h3 : i = a
+      · subst h3
+        have h2 : i ≤ i ∧ i < i + (bs.length + 1) := by omega
+        rw [if_pos h2]; simp
+      · have h2 : ¬ (a ≤ i ∧ i < a + (bs.length + 1)) := by omega
+        rw [if_neg h2]; simp [h3]
+
+theorem addr_k (x i k n : Nat) (hi : i < 2 ^ 64) (h : x + n < 2 ^ 64) :
+    (BitVec.ofNat 64 i = BitVec.ofNat 64 x + BitVec.ofNat 64 k ∧ k < n) ↔ (i = x + k ∧ k < n) := by
+  rw [ofNat64_add]
+  constructor
+  · intro ⟨h1, h2⟩; exact ⟨(ofNat64_inj _ _ hi (by omega)).1 h1, h2⟩
+  · intro ⟨h1, h2⟩; exact ⟨by rw [h1], h2⟩
+
+/-- representation of the packer structure -/
+structure AbsP (b e p : BitVec 64) (pk : Pk) : Prop where
+  hb : b = BitVec.ofNat 64 pk.base
+  he : e = BitVec.ofNat 64 (pk.base + pk.size)
+  hp : p = BitVec.ofNat 64 (pk.base + pk.cur)
+
+/-- one fixed-size packer: what the four obligations of layer 1 give, for any encoder -/
+theorem packer_tie (enc : List UInt8) (n : Nat) (hn : enc.length = n) (hn4 : n ≤ 4)
+    (m : Librfn.Model.Pack.Mem) (pk : Pk) (mem gmem : Gen.Mem) (gp : BitVec 64)
+    (habs : AbsM mem m) (h1 : pk.base + pk.size < 2 ^ 64) (h2 : pk.base + pk.cur + n < 2 ^ 64)
+    (hgp : gp = BitVec.ofNat 64 (pk.base + pk.cur) + BitVec.ofNat 64 n)
+    (hmem : ∀ a, gmem a = (if fitsBV (BitVec.ofNat 64 (pk.base + pk.cur)) (BitVec.ofNat 64 (pk.base + pk.size)) (BitVec.ofNat 64 n) then
+        (if a = BitVec.ofNat 64 (pk.base + pk.cur) + 3#64 ∧ 3 < n then byteAt enc 3
+         else if a = BitVec.ofNat 64 (pk.base + pk.cur) + 2#64 ∧ 2 < n then byteAt enc 2
+         else if a = BitVec.ofNat 64 (pk.base + pk.cur) + 1#64 ∧ 1 < n then byteAt enc 1
+         else if a = BitVec.ofNat 64 (pk.base + pk.cur) ∧ 0 < n then byteAt enc 0 else mem a) else mem a)) :
+    gp = BitVec.ofNat 64 (pk.base + (packRaw m pk enc).2.cur) ∧ AbsM gmem (packRaw m pk enc).1 := by
+  constructor
+  · rw [hgp, ofNat64_add]; simp only [packRaw, advance, hn, Nat.add_assoc]
+  · intro i hi
+    rw [hmem, fits_iff pk n h1 h2]
+    unfold packRaw
+    simp only [hn]
+    by_cases hf : fits pk n = true
+    · simp only [hf, if_true]
+      rw [writeBytes_apply, hn]
+      have a3 := addr_k (pk.base + pk.cur) i 3 n hi h2
+      have a2 := addr_k (pk.base + pk.cur) i 2 n hi h2
+      have a1 := addr_k (pk.base + pk.cur) i 1 n hi h2
+      have a0 : (BitVec.ofNat 64 i = BitVec.ofNat 64 (pk.base + pk.cur)) ↔ i = pk.base + pk.cur :=
+        ofNat64_inj _ _ hi (by omega)
+      simp only [a3, a2, a1, a0]
+      by_cases c3 : i = pk.base + pk.cur + 3 ∧ 3 < n
+      · rw [if_pos c3, if_pos (by omega)]; simp only [byteAt, UInt8.ofBitVec_toBitVec]; congr 1; omega
+      · rw [if_neg c3]
+        by_cases c2 : i = pk.base + pk.cur + 2 ∧ 2 < n
+        · rw [if_pos c2, if_pos (by omega)]; simp only [byteAt, UInt8.ofBitVec_toBitVec]; congr 1; omega
+        · rw [if_neg c2]
+          by_cases c1 : i = pk.base + pk.cur + 1 ∧ 1 < n
+          · rw [if_pos c1, if_pos (by omega)]; simp only [byteAt, UInt8.ofBitVec_toBitVec]; congr 1; omega
+          · rw [if_neg c1]
+            by_cases c0 : i = pk.base + pk.cur ∧ 0 < n
+            · rw [if_pos c0, if_pos (by omega)]; simp only [byteAt, UInt8.ofBitVec_toBitVec]; congr 1; omega
+            · rw [if_neg c0, if_neg (by omega)]; exact habs i hi
+    · have hf' : fits pk n = false := by simpa using hf
+      simp only [hf', Bool.false_eq_true, if_false]
+      exact habs i hi
+
+/-- **tie T, `rf_pack_s16le`** -/
+theorem pack_s16le_tie (m : Librfn.Model.Pack.Mem) (pk : Pk) (v : BitVec 16) (mem : Gen.Mem) (habs : AbsM mem m)
+    (h1 : pk.base + pk.size < 2 ^ 64) (h2 : pk.base + pk.cur + 2 < 2 ^ 64) :
+    let g := rf_pack_s16le (BitVec.ofNat 64 pk.base) (BitVec.ofNat 64 (pk.base + pk.size)) (BitVec.ofNat 64 (pk.base + pk.cur)) v mem
+    g.ub = false ∧ g.exh = false ∧ g.pack_basep = BitVec.ofNat 64 pk.base ∧ g.pack_endp = BitVec.ofNat 64 (pk.base + pk.size) ∧
+    g.pack_p = BitVec.ofNat 64 (pk.base + (packS16le m pk v).2.cur) ∧ AbsM g.mem (packS16le m pk v).1 := by
+  obtain ⟨a1, a2, a3, a4, a5⟩ := pack_s16le_generated (BitVec.ofNat 64 pk.base) (BitVec.ofNat 64 (pk.base + pk.size)) (BitVec.ofNat 64 (pk.base + pk.cur)) v mem
+  have hm := pack_s16le_generated_mem (BitVec.ofNat 64 pk.base) (BitVec.ofNat 64 (pk.base + pk.size)) (BitVec.ofNat 64 (pk.base + pk.cur)) v mem
+  have t := packer_tie (encS16le v) 2 rfl (by omega) m pk mem (rf_pack_s16le (BitVec.ofNat 64 pk.base) (BitVec.ofNat 64 (pk.base + pk.size)) (BitVec.ofNat 64 (pk.base + pk.cur)) v mem).mem (rf_pack_s16le (BitVec.ofNat 64 pk.base) (BitVec.ofNat 64 (pk.base + pk.size)) (BitVec.ofNat 64 (pk.base + pk.cur)) v mem).pack_p habs h1 h2 a5 (by intro a; rw [hm a]; simp)
+  exact ⟨a1, a2, a3, a4, t.1, t.2⟩
+
+/-- **tie T, `rf_pack_u16be`** -/
+theorem pack_u16be_tie (m : Librfn.Model.Pack.Mem) (pk : Pk) (v : BitVec 16) (mem : Gen.Mem) (habs : AbsM mem m)
+    (h1 : pk.base + pk.size < 2 ^ 64) (h2 : pk.base + pk.cur + 2 < 2 ^ 64) :
+    let g := rf_pack_u16be (BitVec.ofNat 64 pk.base) (BitVec.ofNat 64 (pk.base + pk.size)) (BitVec.ofNat 64 (pk.base + pk.cur)) v mem
+    g.ub = false ∧ g.exh = false ∧ g.pack_basep = BitVec.ofNat 64 pk.base ∧ g.pack_endp = BitVec.ofNat 64 (pk.base + pk.size) ∧
+    g.pack_p = BitVec.ofNat 64 (pk.base + (packU16be m pk v).2.cur) ∧ AbsM g.mem (packU16be m pk v).1 := by
+  obtain ⟨a1, a2, a3, a4, a5⟩ := pack_u16be_generated (BitVec.ofNat 64 pk.base) (BitVec.ofNat 64 (pk.base + pk.size)) (BitVec.ofNat 64 (pk.base + pk.cur)) v mem
+  have hm := pack_u16be_generated_mem (BitVec.ofNat 64 pk.base) (BitVec.ofNat 64 (pk.base + pk.size)) (BitVec.ofNat 64 (pk.base + pk.cur)) v mem
+  have t := packer_tie (encU16be v) 2 rfl (by omega) m pk mem (rf_pack_u16be (BitVec.ofNat 64 pk.base) (BitVec.ofNat 64 (pk.base + pk.size)) (BitVec.ofNat 64 (pk.base + pk.cur)) v mem).mem (rf_pack_u16be (BitVec.ofNat 64 pk.base) (BitVec.ofNat 64 (pk.base + pk.size)) (BitVec.ofNat 64 (pk.base + pk.cur)) v mem).pack_p habs h1 h2 a5 (by intro a; rw [hm a]; simp)
+  exact ⟨a1, a2, a3, a4, t.1, t.2⟩
+
+/-- **tie T, `rf_pack_u16le`** -/
+theorem pack_u16le_tie (m : Librfn.Model.Pack.Mem) (pk : Pk) (v : BitVec 16) (mem : Gen.Mem) (habs : AbsM mem m)
+    (h1 : pk.base + pk.size < 2 ^ 64) (h2 : pk.base + pk.cur + 2 < 2 ^ 64) :
+    let g := rf_pack_u16le (BitVec.ofNat 64 pk.base) (BitVec.ofNat 64 (pk.base + pk.size)) (BitVec.ofNat 64 (pk.base + pk.cur)) v mem
+    g.ub = false ∧ g.exh = false ∧ g.pack_basep = BitVec.ofNat 64 pk.base ∧ g.pack_endp = BitVec.ofNat 64 (pk.base + pk.size) ∧
+    g.pack_p = BitVec.ofNat 64 (pk.base + (packU16le m pk v).2.cur) ∧ AbsM g.mem (packU16le m pk v).1 := by
+  obtain ⟨a1, a2, a3, a4, a5⟩ := pack_u16le_generated (BitVec.ofNat 64 pk.base) (BitVec.ofNat 64 (pk.base + pk.size)) (BitVec.ofNat 64 (pk.base + pk.cur)) v mem
+  have hm := pack_u16le_generated_mem (BitVec.ofNat 64 pk.base) (BitVec.ofNat 64 (pk.base + pk.size)) (BitVec.ofNat 64 (pk.base + pk.cur)) v mem
+  have t := packer_tie (encU16le v) 2 rfl (by omega) m pk mem (rf_pack_u16le (BitVec.ofNat 64 pk.base) (BitVec.ofNat 64 (pk.base + pk.size)) (BitVec.ofNat 64 (pk.base + pk.cur)) v mem).mem (rf_pack_u16le (BitVec.ofNat 64 pk.base) (BitVec.ofNat 64 (pk.base + pk.size)) (BitVec.ofNat 64 (pk.base + pk.cur)) v mem).pack_p habs h1 h2 a5 (by intro a; rw [hm a]; simp)
+  exact ⟨a1, a2, a3, a4, t.1, t.2⟩
+
+/-- **tie T, `rf_pack_s32le`** -/
+theorem pack_s32le_tie (m : Librfn.Model.Pack.Mem) (pk : Pk) (v : BitVec 32) (mem : Gen.Mem) (habs : AbsM mem m)
+    (h1 : pk.base + pk.size < 2 ^ 64) (h2 : pk.base + pk.cur + 4 < 2 ^ 64) :
+    let g := rf_pack_s32le (BitVec.ofNat 64 pk.base) (BitVec.ofNat 64 (pk.base + pk.size)) (BitVec.ofNat 64 (pk.base + pk.cur)) v mem
+    g.ub = false ∧ g.exh = false ∧ g.pack_basep = BitVec.ofNat 64 pk.base ∧ g.pack_endp = BitVec.ofNat 64 (pk.base + pk.size) ∧
+    g.pack_p = BitVec.ofNat 64 (pk.base + (packS32le m pk v).2.cur) ∧ AbsM g.mem (packS32le m pk v).1 := by
+  obtain ⟨a1, a2, a3, a4, a5⟩ := pack_s32le_generated (BitVec.ofNat 64 pk.base) (BitVec.ofNat 64 (pk.base + pk.size)) (BitVec.ofNat 64 (pk.base + pk.cur)) v mem
+  have hm := pack_s32le_generated_mem (BitVec.ofNat 64 pk.base) (BitVec.ofNat 64 (pk.base + pk.size)) (BitVec.ofNat 64 (pk.base + pk.cur)) v mem
+  have t := packer_tie (encS32le v) 4 rfl (by omega) m pk mem (rf_pack_s32le (BitVec.ofNat 64 pk.base) (BitVec.ofNat 64 (pk.base + pk.size)) (BitVec.ofNat 64 (pk.base + pk.cur)) v mem).mem (rf_pack_s32le (BitVec.ofNat 64 pk.base) (BitVec.ofNat 64 (pk.base + pk.size)) (BitVec.ofNat 64 (pk.base + pk.cur)) v mem).pack_p habs h1 h2 a5 (by intro a; rw [hm a]; simp)
+  exact ⟨a1, a2, a3, a4, t.1, t.2⟩
+
+/-- **tie T, `rf_pack_u32le`** -/
+theorem pack_u32le_tie (m : Librfn.Model.Pack.Mem) (pk : Pk) (v : BitVec 32) (mem : Gen.Mem) (habs : AbsM mem m)
+    (h1 : pk.base + pk.size < 2 ^ 64) (h2 : pk.base + pk.cur + 4 < 2 ^ 64) :
+    let g := rf_pack_u32le (BitVec.ofNat 64 pk.base) (BitVec.ofNat 64 (pk.base + pk.size)) (BitVec.ofNat 64 (pk.base + pk.cur)) v mem
+    g.ub = false ∧ g.exh = false ∧ g.pack_basep = BitVec.ofNat 64 pk.base ∧ g.pack_endp = BitVec.ofNat 64 (pk.base + pk.size) ∧
+    g.pack_p = BitVec.ofNat 64 (pk.base + (packU32le m pk v).2.cur) ∧ AbsM g.mem (packU32le m pk v).1 := by
+  obtain ⟨a1, a2, a3, a4, a5⟩ := pack_u32le_generated (BitVec.ofNat 64 pk.base) (BitVec.ofNat 64 (pk.base + pk.size)) (BitVec.ofNat 64 (pk.base + pk.cur)) v mem
+  have hm := pack_u32le_generated_mem (BitVec.ofNat 64 pk.base) (BitVec.ofNat 64 (pk.base + pk.size)) (BitVec.ofNat 64 (pk.base + pk.cur)) v mem
+  have t := packer_tie (encU32le v) 4 rfl (by omega) m pk mem (rf_pack_u32le (BitVec.ofNat 64 pk.base) (BitVec.ofNat 64 (pk.base + pk.size)) (BitVec.ofNat 64 (pk.base + pk.cur)) v mem).mem (rf_pack_u32le (BitVec.ofNat 64 pk.base) (BitVec.ofNat 64 (pk.base + pk.size)) (BitVec.ofNat 64 (pk.base + pk.cur)) v mem).pack_p habs h1 h2 a5 (by intro a; rw [hm a]; simp)
+  exact ⟨a1, a2, a3, a4, t.1, t.2⟩
+
+theorem absm_at (mem : Gen.Mem) (m : Librfn.Model.Pack.Mem) (habs : AbsM mem m) (x k : Nat) (h : x + k < 2 ^ 64) :
+    UInt8.ofBitVec (mem (BitVec.ofNat 64 x + BitVec.ofNat 64 k)) = m (x + k) := by
+  rw [ofNat64_add, habs (x + k) h]
+
+/-- **tie T, `rf_unpack_u32le`** -/
+theorem unpack_u32le_tie (m : Librfn.Model.Pack.Mem) (pk : Pk) (mem : Gen.Mem) (habs : AbsM mem m)
+    (h1 : pk.base + pk.size < 2 ^ 64) (h2 : pk.base + pk.cur + 4 < 2 ^ 64) :
+    let g := rf_unpack_u32le (BitVec.ofNat 64 pk.base) (BitVec.ofNat 64 (pk.base + pk.size)) (BitVec.ofNat 64 (pk.base + pk.cur)) mem
+    g.ub = false ∧ g.exh = false ∧ g.pack_basep = BitVec.ofNat 64 pk.base ∧ g.pack_endp = BitVec.ofNat 64 (pk.base + pk.size) ∧
+    g.pack_p = BitVec.ofNat 64 (pk.base + (unpackU32le m pk).2.cur) ∧ g.ret = (unpackU32le m pk).1 ∧ g.mem = mem := by
+  obtain ⟨a1, a2, a3, a4, a5, a6⟩ := unpack_u32le_generated (BitVec.ofNat 64 pk.base) (BitVec.ofNat 64 (pk.base + pk.size)) (BitVec.ofNat 64 (pk.base + pk.cur)) mem
+  refine ⟨a1, a2, a3, a4, ?_, ?_, unpack_u32le_generated_mem _ _ _ _⟩
+  · rw [a5, show (4#64 : BitVec 64) = BitVec.ofNat 64 4 from rfl, ofNat64_add]; simp only [unpackU32le, advance, Nat.add_assoc]
+  · rw [a6, show (4#64 : BitVec 64) = BitVec.ofNat 64 4 from rfl, fits_iff pk 4 h1 h2]
+    unfold unpackU32le
+    have e0 := absm_at mem m habs (pk.base + pk.cur) 0 (by omega)
+    have e1 := absm_at mem m habs (pk.base + pk.cur) 1 (by omega)
+    have e2 := absm_at mem m habs (pk.base + pk.cur) 2 (by omega)
+    have e3 := absm_at mem m habs (pk.base + pk.cur) 3 (by omega)
+    simp only [BitVec.ofNat_eq_ofNat, BitVec.add_zero, Nat.add_zero] at e0
+    rw [show (1#64 : BitVec 64) = BitVec.ofNat 64 1 from rfl, show (2#64 : BitVec 64) = BitVec.ofNat 64 2 from rfl,
+        show (3#64 : BitVec 64) = BitVec.ofNat 64 3 from rfl, e0, e1, e2, e3]
+
+/-- **tie T, `rf_unpack_u16le`** -/
+theorem unpack_u16le_tie (m : Librfn.Model.Pack.Mem) (pk : Pk) (mem : Gen.Mem) (habs : AbsM mem m)
+    (h1 : pk.base + pk.size < 2 ^ 64) (h2 : pk.base + pk.cur + 2 < 2 ^ 64) :
+    let g := rf_unpack_u16le (BitVec.ofNat 64 pk.base) (BitVec.ofNat 64 (pk.base + pk.size)) (BitVec.ofNat 64 (pk.base + pk.cur)) mem
+    g.ub = false ∧ g.exh = false ∧ g.pack_basep = BitVec.ofNat 64 pk.base ∧ g.pack_endp = BitVec.ofNat 64 (pk.base + pk.size) ∧
+    g.pack_p = BitVec.ofNat 64 (pk.base + (unpackU16le m pk).2.cur) ∧ g.ret = (unpackU16le m pk).1 ∧ g.mem = mem := by
+  obtain ⟨a1, a2, a3, a4, a5, a6⟩ := unpack_u16le_generated (BitVec.ofNat 64 pk.base) (BitVec.ofNat 64 (pk.base + pk.size)) (BitVec.ofNat 64 (pk.base + pk.cur)) mem
+  refine ⟨a1, a2, a3, a4, ?_, ?_, unpack_u16le_generated_mem _ _ _ _⟩
+  · rw [a5, show (2#64 : BitVec 64) = BitVec.ofNat 64 2 from rfl, ofNat64_add]; simp only [unpackU16le, advance, Nat.add_assoc]
+  · rw [a6, show (2#64 : BitVec 64) = BitVec.ofNat 64 2 from rfl, fits_iff pk 2 h1 h2]
+    unfold unpackU16le
+    have e0 := absm_at mem m habs (pk.base + pk.cur) 0 (by omega)
+    have e1 := absm_at mem m habs (pk.base + pk.cur) 1 (by omega)
+    simp only [BitVec.ofNat_eq_ofNat, BitVec.add_zero, Nat.add_zero] at e0
+    rw [show (1#64 : BitVec 64) = BitVec.ofNat 64 1 from rfl, e0, e1]
+
+/-- **tie T, `rf_unpack_u8` / `rf_unpack_s8` / `rf_unpack_char`**: the byte at the cursor (0 when it does not fit); the
+    model reads it as unsigned (`unpackU8`) or signed (`unpackS8`, `unpackChar`) -/
+theorem unpack_u8_tie (m : Librfn.Model.Pack.Mem) (pk : Pk) (mem : Gen.Mem) (habs : AbsM mem m)
+    (h1 : pk.base + pk.size < 2 ^ 64) (h2 : pk.base + pk.cur + 1 < 2 ^ 64) :
+    let g := rf_unpack_u8 (BitVec.ofNat 64 pk.base) (BitVec.ofNat 64 (pk.base + pk.size)) (BitVec.ofNat 64 (pk.base + pk.cur)) mem
+    g.ub = false ∧ g.exh = false ∧ g.pack_p = BitVec.ofNat 64 (pk.base + (unpackU8 m pk).2.cur) ∧
+    UInt8.ofBitVec g.ret = (unpackU8 m pk).1 ∧ g.mem = mem := by
+  obtain ⟨a1, a2, _, _, a5, a6⟩ := unpack_u8_generated (BitVec.ofNat 64 pk.base) (BitVec.ofNat 64 (pk.base + pk.size)) (BitVec.ofNat 64 (pk.base + pk.cur)) mem
+  refine ⟨a1, a2, ?_, ?_, unpack_u8_generated_mem _ _ _ _⟩
+  · rw [a5, show (1#64 : BitVec 64) = BitVec.ofNat 64 1 from rfl, ofNat64_add]; simp only [unpackU8, advance, Nat.add_assoc]
+  · rw [a6, show (1#64 : BitVec 64) = BitVec.ofNat 64 1 from rfl, fits_iff pk 1 h1 h2]
+    unfold unpackU8
+    have e0 := habs (pk.base + pk.cur) (by omega)
+    by_cases hf : fits pk 1 = true
+    · simp only [hf, if_true]; rw [e0]
+    · have hf' : fits pk 1 = false := by simpa using hf
+      simp only [hf', Bool.false_eq_true, if_false]; rfl
+
+theorem unpack_s8_tie (m : Librfn.Model.Pack.Mem) (pk : Pk) (mem : Gen.Mem) (habs : AbsM mem m)
+    (h1 : pk.base + pk.size < 2 ^ 64) (h2 : pk.base + pk.cur + 1 < 2 ^ 64) :
+    let g := rf_unpack_s8 (BitVec.ofNat 64 pk.base) (BitVec.ofNat 64 (pk.base + pk.size)) (BitVec.ofNat 64 (pk.base + pk.cur)) mem
+    g.ub = false ∧ g.exh = false ∧ g.pack_p = BitVec.ofNat 64 (pk.base + (unpackS8 m pk).2.cur) ∧
+    g.ret.toInt = (unpackS8 m pk).1 ∧ g.mem = mem := by
+  obtain ⟨a1, a2, _, _, a5, a6⟩ := unpack_s8_generated (BitVec.ofNat 64 pk.base) (BitVec.ofNat 64 (pk.base + pk.size)) (BitVec.ofNat 64 (pk.base + pk.cur)) mem
+  refine ⟨a1, a2, ?_, ?_, unpack_s8_generated_mem _ _ _ _⟩
+  · rw [a5, show (1#64 : BitVec 64) = BitVec.ofNat 64 1 from rfl, ofNat64_add]; simp only [unpackS8, advance, Nat.add_assoc]
+  · rw [a6, show (1#64 : BitVec 64) = BitVec.ofNat 64 1 from rfl, fits_iff pk 1 h1 h2]
+    unfold unpackS8
+    have e0 := habs (pk.base + pk.cur) (by omega)
+    by_cases hf : fits pk 1 = true
+    · simp only [hf, if_true]; rw [e0]
+    · have hf' : fits pk 1 = false := by simpa using hf
+      simp only [hf', Bool.false_eq_true, if_false]; rfl
+
+theorem unpack_char_tie (m : Librfn.Model.Pack.Mem) (pk : Pk) (mem : Gen.Mem) (habs : AbsM mem m)
+    (h1 : pk.base + pk.size < 2 ^ 64) (h2 : pk.base + pk.cur + 1 < 2 ^ 64) :
+    let g := rf_unpack_char (BitVec.ofNat 64 pk.base) (BitVec.ofNat 64 (pk.base + pk.size)) (BitVec.ofNat 64 (pk.base + pk.cur)) mem
+    g.ub = false ∧ g.exh = false ∧ g.pack_p = BitVec.ofNat 64 (pk.base + (unpackChar m pk).2.cur) ∧
+    g.ret.toInt = (unpackChar m pk).1 ∧ g.mem = mem := by
+  obtain ⟨a1, a2, _, _, a5, a6⟩ := unpack_char_generated (BitVec.ofNat 64 pk.base) (BitVec.ofNat 64 (pk.base + pk.size)) (BitVec.ofNat 64 (pk.base + pk.cur)) mem
+  refine ⟨a1, a2, ?_, ?_, unpack_char_generated_mem _ _ _ _⟩
+  · rw [a5, show (1#64 : BitVec 64) = BitVec.ofNat 64 1 from rfl, ofNat64_add]; simp only [unpackChar, unpackS8, advance, Nat.add_assoc]
+  · rw [a6, show (1#64 : BitVec 64) = BitVec.ofNat 64 1 from rfl, fits_iff pk 1 h1 h2]
+    unfold unpackChar unpackS8
+    have e0 := habs (pk.base + pk.cur) (by omega)
+    by_cases hf : fits pk 1 = true
+    · simp only [hf, if_true]; rw [e0]
+    · have hf' : fits pk 1 = false := by simpa using hf
+      simp only [hf', Bool.false_eq_true, if_false]; rfl
+
+/-- **tie T, `rf_pack_init`, `rf_pack_consumed`, `rf_pack_remaining`** -/
+theorem pack_init_tie (b0 e0 p0 : BitVec 64) (base sz : Nat) (hs : sz < 2 ^ 32) :
+    let g := rf_pack_init b0 e0 p0 (BitVec.ofNat 64 base) (BitVec.ofNat 32 sz)
+    g.ub = false ∧ g.exh = false ∧ AbsP g.pack_basep g.pack_endp g.pack_p (init base sz) := by
+  obtain ⟨a1, a2, a3, a4, a5⟩ := pack_init_generated b0 e0 p0 (BitVec.ofNat 64 base) (BitVec.ofNat 32 sz)
+  refine ⟨a1, a2, ⟨a3, ?_, by rw [a4]; rfl⟩⟩
+  rw [a5]
+  have : (BitVec.ofNat 32 sz).setWidth 64 = BitVec.ofNat 64 sz := by
+    apply BitVec.eq_of_toNat_eq; simp only [BitVec.toNat_setWidth, BitVec.toNat_ofNat]; omega
+  rw [this, ofNat64_add]; rfl
+
+theorem pack_consumed_tie (pk : Pk) (h2 : pk.base + pk.cur < 2 ^ 64) :
+    let g := rf_pack_consumed (BitVec.ofNat 64 pk.base) (BitVec.ofNat 64 (pk.base + pk.size)) (BitVec.ofNat 64 (pk.base + pk.cur))
+    g.ub = false ∧ g.exh = false ∧ g.ret.toInt = consumed pk := by
+  obtain ⟨a1, a2, _, _, _, a6⟩ := pack_consumed_generated (BitVec.ofNat 64 pk.base) (BitVec.ofNat 64 (pk.base + pk.size)) (BitVec.ofNat 64 (pk.base + pk.cur))
+  refine ⟨a1, a2, ?_⟩
+  rw [a6]
+  have e : BitVec.ofNat 64 (pk.base + pk.cur) - BitVec.ofNat 64 pk.base = BitVec.ofNat 64 pk.cur := by
+    rw [← ofNat64_add, BitVec.add_comm, BitVec.add_sub_cancel]
+  rw [e]
+  unfold consumed wrap32
+  simp only [BitVec.toInt_eq_toNat_bmod, BitVec.toNat_setWidth, BitVec.toNat_ofNat]
+  have hc : pk.cur < 2 ^ 64 := by omega
+  rw [Nat.mod_eq_of_lt hc]
+  simp only [Int.bmod]
+  split <;> omega
+
+theorem pack_remaining_tie (pk : Pk) (h1 : pk.base + pk.size < 2 ^ 64) (h2 : pk.base + pk.cur < 2 ^ 64) :
+    let g := rf_pack_remaining (BitVec.ofNat 64 pk.base) (BitVec.ofNat 64 (pk.base + pk.size)) (BitVec.ofNat 64 (pk.base + pk.cur))
+    g.ub = false ∧ g.exh = false ∧ g.ret.toInt = remaining pk := by
+  obtain ⟨a1, a2, _, _, _, a6⟩ := pack_remaining_generated (BitVec.ofNat 64 pk.base) (BitVec.ofNat 64 (pk.base + pk.size)) (BitVec.ofNat 64 (pk.base + pk.cur))
+  refine ⟨a1, a2, ?_⟩
+  rw [a6]
+  unfold remaining wrap32
+  simp only [BitVec.toInt_eq_toNat_bmod, BitVec.toNat_setWidth, BitVec.toNat_sub, BitVec.toNat_ofNat]
+  rw [Nat.mod_eq_of_lt h1, Nat.mod_eq_of_lt h2]
+  simp only [Int.bmod]
+  split <;> omega
 
 end Librfn.C12.Tie
